@@ -11,9 +11,20 @@ Record case := mkst {
 
 (* "releases locks inherited from a previous dispatcher": only Locked containers that had no process at
    some look are unlocked; with workers all known at the first look nothing is unlocked *)
+Fixpoint first_known (snaps : list (bool * rmap * list ent)) : option rmap :=
+  match snaps with
+  | [] => None
+  | (unknown, running, _) :: r => if unknown then first_known r else Some running
+  end.
+(* ... and (finding F24, fixed) a container that pool.Running() reports when the wait ends because all
+   workers have become known is not unlocked *)
 Definition spec_b (c : case) : bool :=
   forallb (fun u => existsb (fun sn => match sn with (unknown, running, ents) => unknown && memN u (stale_locks ents running) end)
-                            (t_snaps c)) (o_unlock c).
+                            (t_snaps c)) (o_unlock c) &&
+  match first_known (t_snaps c) with
+  | Some running => forallb (not_running running) (o_unlock c)
+  | None => true
+  end.
 
 Fixpoint insN (x : N) (l : list N) : list N :=
   match l with [] => [x] | y :: r => if (x <=? y)%N then x :: l else y :: insN x r end.
